@@ -20,6 +20,8 @@ class Interp(object):
         self.returned = False
         self.raised = False
         self.calls = []
+        self.record = set()
+        self.built = []
 
     def ev(self, e):
         if isinstance(e, ast.Constant):
@@ -54,6 +56,10 @@ class Interp(object):
                 return a == b
             if isinstance(e.ops[0], ast.NotEq):
                 return a != b
+            if isinstance(e.ops[0], ast.In) and isinstance(b, (list, tuple)):
+                return a in b
+            if isinstance(e.ops[0], ast.NotIn) and isinstance(b, (list, tuple)):
+                return a not in b
         if isinstance(e, ast.Call) and pyfront.call_name(e) == "any" and e.args and isinstance(e.args[0], ast.GeneratorExp):
             elt = e.args[0].elt
             if isinstance(elt, ast.Call) and isinstance(elt.func, ast.Attribute) and elt.func.attr == "match":
@@ -62,6 +68,8 @@ class Interp(object):
                     return self.env[k]
         if isinstance(e, ast.List) and not e.elts:
             return []
+        if isinstance(e, (ast.Tuple, ast.List)) and all(isinstance(x, ast.Constant) for x in e.elts):
+            return [x.value for x in e.elts]
         if isinstance(e, ast.Attribute):
             d = pyfront.dotted(e)
             if d in self.env:
@@ -88,6 +96,16 @@ class Interp(object):
             if isinstance(s, ast.Expr) and isinstance(s.value, ast.Constant):
                 continue
             if isinstance(s, ast.Assign) and len(s.targets) == 1 and isinstance(s.targets[0], ast.Name):
+                if isinstance(s.value, ast.Call) and pyfront.call_name(s.value) in self.record:
+                    kw = {}
+                    for k in s.value.keywords:
+                        try:
+                            kw[k.arg] = self.ev(k.value)
+                        except AnalysisError:
+                            kw[k.arg] = ("sym", ast.unparse(k.value))
+                    self.built.append((s.targets[0].id, pyfront.call_name(s.value), kw, s.value))
+                    self.env[s.targets[0].id] = ("obj", s.targets[0].id)
+                    continue
                 try:
                     self.env[s.targets[0].id] = self.ev(s.value)
                 except AnalysisError:
@@ -118,5 +136,7 @@ class Interp(object):
                         self.env[c.func.value.id] = self.env[c.func.value.id] + [name]
                 else:
                     self.calls.append(c)
+            elif isinstance(s, (ast.ClassDef, ast.FunctionDef, ast.Pass)):
+                continue
             else:
                 raise Stop()
